@@ -26,6 +26,7 @@ struct GenParams {
     bool big = false;              // occasionally larger variables (cross 4 KiB swap threshold)
     bool no_type_conv = false;     // memory type == native type
     bool forced_np = false; int np = 0;
+    bool iget_overlap_strict = false;   // check the overlapped share of overlapping iget requests on 10% of seeds (C02 known finding)
 };
 
 Program gen_program(uint64_t seed, const GenParams &gp, const std::string &profile);
